@@ -1,6 +1,7 @@
 package main
 
 import (
+	"go/types"
 	"crypto/sha256"
 	"fmt"
 	"os"
@@ -196,6 +197,8 @@ type Engine struct {
 	memo   map[string]bool
 	res    *EntryResult
 	funcs  map[*ssa.Function]bool
+	rtypes map[string]types.Type
+	rtmu   sync.Mutex
 	blocks map[*ssa.BasicBlock]bool
 	unknownQ []string
 	stop   bool
